@@ -138,6 +138,10 @@ def _caller_guarded(E: Engine, f: FunctionInfo, attr: str) -> Optional[str]:
                     ok = True
                 if a is None and lit.truth is not None and lit.positive and lit.truth.roots == want:
                     ok = True
+                # `"<attr>" not in self._optional_parameters`: the parameter is mandatory for this
+                # device class, and mandatory parameters are rejected when None at construction
+                if a is not None and a.rel == "NotIn" and f"const:{attr!r}" in a.lhs.roots and any(r.endswith("._optional_parameters") for r in a.rhs.roots):
+                    ok = True
             if not ok:
                 return None
         descr.append(caller.short)
